@@ -424,4 +424,53 @@ def _kspace_oracles(ctx, deep):
                 out.append(Violation("random-crop-window", "CropKspace random crop is not a window of the back-projected image", {"shape": list(k.shape), "crop": [mh, mw]}, {"fn": "CropKspace-random"}))
         except Exception as e:  # noqa
             out.append(Violation("kspace-crop-pad-raises", "CropKspace/PadKspace raises %s: %s" % (type(e).__name__, str(e)[:100]), {"shape": list(k.shape)}, {"fn": "kspace", "raises": type(e).__name__}))
+    # a crop larger than the data has start index floor(diff / 2) < 0 and is rejected (never answered by an off-centre,
+    # zero-filled window): differences of -1 (where truncation and floor differ), -2, -3 on one or both axes
+    for h, w in ((4, 5), (6, 7), (3, 3), (1, 2)):
+        for dh, dw in ((1, 0), (0, 1), (1, 1), (2, 0), (0, 3), (1, -1), (-1, 1), (2, 1)):
+            if h + dh < 1 or w + dw < 1:
+                continue
+            k = (torch.arange(2 * h * w * 2, dtype=torch.float32) + 1.0).reshape(2, h, w, 2)
+            for name, call in (("complex_center_crop", lambda: T.complex_center_crop(k, (h + dh, w + dw))),
+                               ("CropKspace", lambda: M.CropKspace((h + dh, w + dw), forward_operator=functools.partial(T.fft2, centered=True), backward_operator=functools.partial(T.ifft2, centered=True), image_space_center_crop=True)({"kspace": k.clone()})["kspace"])):
+                runs += 1
+                try:
+                    got = call()
+                    out.append(Violation("oversize-crop-rejected", "%s of %dx%d data to the larger shape %dx%d returns a tensor of shape %s instead of raising ValueError (start index floor(diff/2) is negative)" % (name, h, w, h + dh, w + dw, list(got.shape)), {"call": name, "data_shape": [2, h, w, 2], "crop": [h + dh, w + dw], "observed_shape": list(got.shape)}, {"fn": name, "kind": "oversize", "diff": [-dh, -dw]}))
+                except ValueError:
+                    pass
+                except Exception as e:  # noqa
+                    out.append(Violation("oversize-crop-rejected", "%s of %dx%d data to the larger shape %dx%d raises %s instead of ValueError" % (name, h, w, h + dh, w + dw, type(e).__name__), {"call": name, "data_shape": [2, h, w, 2], "crop": [h + dh, w + dw]}, {"fn": name, "kind": "oversize-raises"}))
+    # one transform object over a sequence of samples of different matrix size / number of slices / dimensionality:
+    # every call must equal the call on a freshly built object (nothing resolved for one sample may serve the next)
+    for _ in range(ctx.n(25, 250)):
+        centered = rng.random() < 0.7
+        fwd = functools.partial(T.fft2, centered=centered)
+        bwd = functools.partial(T.ifft2, centered=centered)
+        mh, mw = rng.randint(1, 4), rng.randint(1, 4)
+        kinds = {"CropKspace": lambda: M.CropKspace((mh, mw), forward_operator=fwd, backward_operator=bwd, image_space_center_crop=True),
+                 "PadKspace": lambda: M.PadKspace((mh + 6, mw + 6), forward_operator=fwd, backward_operator=bwd)}
+        for name, make in kinds.items():
+            shared = make()
+            hist = []
+            for step in range(rng.randint(2, 4)):
+                three = rng.random() < 0.6
+                h, w, nz, coils = rng.randint(4, 8), rng.randint(4, 8), rng.randint(1, 5), rng.randint(1, 3)
+                g = torch.Generator().manual_seed(rng.randrange(1 << 30))
+                k = torch.randn(*((coils, nz, h, w, 2) if three else (coils, h, w, 2)), generator=g)
+                hist.append(list(k.shape))
+                runs += 1
+                try:
+                    want = make()({"kspace": k.clone()})["kspace"]
+                except Exception:  # noqa  (the fresh object rejects the sample: nothing to compare)
+                    continue
+                try:
+                    got = shared({"kspace": k.clone()})["kspace"]
+                    bad = got.shape != want.shape or not torch.allclose(got, want, atol=1e-5)
+                    what = "returns shape %s where a fresh object returns %s" % (list(got.shape), list(want.shape)) if got.shape != want.shape else "returns other values than a fresh object"
+                except Exception as e:  # noqa
+                    bad, what = True, "raises %s where a fresh object answers" % type(e).__name__
+                if bad:
+                    out.append(Violation("transform-object-history", "%s((%d, %d)) used for samples of shapes %s: call %d %s" % (name, mh, mw, hist, len(hist), what), {"transform": name, "crop_or_pad": [mh, mw], "sample_shapes": hist, "centered": centered}, {"fn": name, "kind": "history"}))
+                    break
     return out, runs
